@@ -611,6 +611,7 @@ func init() {
 			}
 			js = append(js, JobSpec{Name: "racing-opens-fresh-dir", Harness: "root", Func: "verifHarnessC16Race", Params: p("index", 3, "shards", 1, "preempt", pre), Scale: scaleDF(32), NoReplay: true})
 			js = append(js, JobSpec{Name: "close-racing-open", Harness: "root", Func: "verifHarnessC16CloseRace", Params: p("index", 3, "shards", 1, "preempt", pre), Scale: scaleDF(32), NoReplay: true})
+			js = append(js, JobSpec{Name: "close-racing-open-mmap-prefilled", Harness: "root", Func: "verifHarnessC16CloseRace", Params: p("index", 3, "shards", 1, "preempt", pre, "io", 1, "prefill", 1), Scale: scaleDF(32), NoReplay: true})
 			js = append(js, JobSpec{Name: "witness", Harness: "root", Func: "verifHarnessC16", Params: p("index", 3, "shards", 1, "maxfail", 14, "witness", 1), Scale: scaleDF(32), Witness: true})
 			return js
 		},
